@@ -32,6 +32,24 @@ pows += [(mag(-2, 2), rnd.randint(-20, 20) * S) for _ in range(10)]
 pows += [(-mag(-2, 1), rnd.randint(-15, 15) * S) for _ in range(10)]
 pows += [(mag(-6, 3), mag(-6, 0) * rnd.choice([1, -1])) for _ in range(15)]
 
+# boundary shapes of the stopping rules (see harness/src/bin/c15.rs): Taylor term == EPS, arguments
+# strictly between e^n and e^n (1 + 1e-24); EK = ipow E k of the Gallina reference
+TERM_EPS = [10000000000, 14142135623730950488017, 181712059283213965892571416, 22133638394006431995453967988]
+for t in TERM_EPS:
+    exps += [t - 1, t, t + 1, -(t - 1), -t]
+EK = {0: S, 1: E, 2: 73890560989306502272304270960842165, 3: 200855369231876677409285281683986759,
+      -1: 3678794411714423215955237792349248, -2: 1353352832366126918939995016483661}
+for k, ek in EK.items():
+    for r in (30, 24):
+        d = ek // 10 ** r
+        if d: lns += [ek + d, ek + d - 1]
+lns += [1353352832366126918939995016483660]  # find_e's lower bracket fails here (x_ = -1 unit)
+pows += [(S + 10 ** 4, 10 ** 6 * S), (S + 10 ** 10, 2 * S), (S + 10 ** 10, 10 ** 24 * S), (S + 10 ** 10, -10 ** 12 * S),
+         (EK[3] + EK[3] // 10 ** 30, 2 * S)]
+
+# ln arguments 1 + x_ where two successive convergents differ by exactly EPS (`diff < eps` decided by equality)
+lns += [10000447778314706958567411759369823, 10031589263290062464956146087343882, 10225994822703482579091636520685699, 10698024528982578455093629776955104, 11492453308525698876727671595856442, 12579880394167374683090869072182477]
+
 def z(n): return "(%d)" % n if n < 0 else "%d" % n
 lines = ["From PV Require Import Lib.Base Fixed.Model.", "Open Scope Z_scope."]
 for x in exps: lines.append("Eval vm_compute in (ref_exp %s)." % z(x))
